@@ -175,6 +175,30 @@ func generate(r *runner) {
 		}
 	}
 
+	// 4c. status_code lists in the order written (not ascending, duplicates) x every
+	//     listed and unlisted status; 4d. upper-case letters in host labels and
+	//     literal segments, both spellings of every URL, two flows differing only
+	//     in letter case.  Each set is built as Go literals AND written as flow
+	//     files read back by the production loader (streamconfig.GetFlows).
+	for _, viaLoader := range []bool{false, true} {
+		r.loader = viaLoader
+		label := map[bool]string{false: "-literal", true: "-loader"}[viaLoader]
+		for _, fs := range statusListSets(len(statusLists)) {
+			r.runSet(fs, statusTxns([]string{"a/b", "a/b/c"}, true), true, "status-lists"+label)
+		}
+		for _, pats := range letterCaseSets(len(letterCaseBase)) {
+			r.runSet(mkFlows(pats, nil), txnsFor(letterCaseURLs(pats), false), true, "letter-case"+label)
+		}
+		// a sample of the ordinary constraint pairs through the loader as well
+		if viaLoader {
+			for ci := range constraintVariants {
+				flows := mkFlows([]string{"a/b", "a/*"}, []constraint{constraintVariants[ci], constraintVariants[(ci+3)%len(constraintVariants)]})
+				r.runSet(flows, txnsFor([]string{"a/b"}, true), true, "constraints-loader")
+			}
+		}
+	}
+	r.loader = false
+
 	// 5. malformed / odd declarations: errors and odd shapes must be modelled too
 	odd := [][]string{
 		{"a/*/b"}, {"a//b"}, {"*/*"}, {"a/*/*"}, {"*.*"}, {"a/{p}", "a/{q}"}, {"a/{p}/b", "a/{q}"},
